@@ -374,6 +374,10 @@ def run(prog, rep, tier):
     rep.rule('VALUE-dead', 'no result of a call is bound to a local that is never read (reaching '
              'definitions)')
     check_dead_computations(prog, rep, ['tenpy/linalg/truncation.py'])
+    from ..labels import check_labels
+    rep.rule('LABEL-known', 'typestate of leg-label sets: literal labels used on a local tensor '
+             'whose complete label set is known (literal transposition, contractions) exist on it')
+    check_labels(prog, rep, ['tenpy/linalg/truncation.py'])
     return rep.finish(
         level='other',
         explanation='Constraint pipeline of truncate() and the renormalisation/projection pairing '
